@@ -8,6 +8,10 @@
 (* combinations the documentation promises; the laws of property C17 are   *)
 (* named operators (Law...) which the model-checking instance MC_Sweep     *)
 (* turns into invariants over a universe of sweeps written in TLA+.        *)
+(* Sums (+, combine, MultiSweep) are moreover described as expressions of  *)
+(* any nesting (EvalSum) and as objects that live on while further sums    *)
+(* are formed from them (StoreInit / StepStore: the step of the history    *)
+(* state machine MC_Sweep!NextHist): being values, they never change.      *)
 (*                                                                         *)
 (* Encoding                                                                *)
 (*   key          a string ("a", "b", ..)                                  *)
